@@ -39,7 +39,7 @@ def registry_by_target(sidecars):
     reg = {}
     for cs in sidecars.values():
         for c in cs:
-            if c.target and c.kind == "function":
+            if c.target and c.kind in ("function", "assumed") and not getattr(c, "no_use", False):
                 reg.setdefault(c.target, c)
     return reg
 
@@ -172,7 +172,7 @@ def main(argv=None):
     ap.add_argument("--sample", type=int, default=0)
     a = ap.parse_args(argv)
     sc = load_sidecars([a.sidecar])
-    sel = [(a.sidecar, c.name) for c in sc[a.sidecar] if a.contract in (None, c.name)]
+    sel = [(a.sidecar, c.name) for c in sc[a.sidecar] if a.contract in (None, c.name) and c.kind != "assumed"]
     t0 = time.time()
     if a.sample:
         for r in sample(sel, a.sample, 0, a.j):
